@@ -8,8 +8,16 @@
 //!   * `with_capacity` requires at least two chunks (one chunk is pinned at offset zero by the
 //!     `buf_pin_zero` feature and "remove all on overflow" needs room for another one).
 //! What it does NOT model: chunking, eviction, the chunk index.  Those are dependency code and
-//! are declared outside every claim (DESIGN 4, C07).
-//! Validated natively against the real rabuf by bin/validate_models.
+//! are declared outside every claim (DESIGN 4, C07).  Domain restrictions found by the native
+//! validation (`bin/validate models`, which drives the real rabuf and this model with the same
+//! seeded scripts): (i) a read may run past the end of the file only inside the chunk that holds
+//! the end - beyond that chunk the real buffer fails with UnexpectedEof, the model would return
+//! zeros (layer-B harnesses assert that the position never ends more than 8 bytes beyond the
+//! end); (ii) truncation: after set_len to a smaller size the real buffer keeps the stale bytes
+//! of the cut-off tail in its chunk, the model zero-fills - the crate truncates only on the
+//! error-recovery path of write_piece, which is outside every claim; (iii) `stream_position()`
+//! is `seek(Current(0))` and therefore extends the file when the position is beyond its end - in
+//! both.
 use std::fs::File;
 use std::io::{Error, ErrorKind, Read, Result, Seek, SeekFrom, Write};
 
